@@ -1754,7 +1754,9 @@ def mut_ref_aliases(fn):
                 i += 1
                 continue
             place = _unblk(init["x"])
-            if not _pure_place_idx(place) or place.get("k") not in ("index", "field", "local"):
+            while place is not None and place.get("k") == "ref" and isinstance(place.get("x"), dict):
+                place = _unblk(place["x"])          # `&mut &mut P` names P as well
+            if place is None or not _pure_place_idx(place) or place.get("k") not in ("index", "field", "local"):
                 i += 1
                 continue
             if place.get("k") == "local" and place["hid"] == s["pat"]["hid"]:
@@ -3700,6 +3702,16 @@ def run(facts):
             counts["split_tuple_lets"] = counts.get("split_tuple_lets", 0) + split_tuple_lets(fn["body"])
             counts["mut_ref_aliases"] = counts.get("mut_ref_aliases", 0) + mut_ref_aliases(fn)
             counts["move_aliases"] = counts.get("move_aliases", 0) + move_aliases(fn)
-        counts["tuple_values"] = counts.get("tuple_values", 0) + split_tuple_values(fn)
+        tv_ = split_tuple_values(fn)
+        counts["tuple_values"] = counts.get("tuple_values", 0) + tv_
+        rounds_ = 0
+        while tv_ and rounds_ < 3:
+            # projections were replaced by their components: aliases of the places they name may be recognisable only now
+            rounds_ += 1
+            counts["flattened_blocks"] = counts.get("flattened_blocks", 0) + flatten_blocks(fn)
+            counts["mut_ref_aliases"] = counts.get("mut_ref_aliases", 0) + mut_ref_aliases(fn)
+            counts["move_aliases"] = counts.get("move_aliases", 0) + move_aliases(fn)
+            tv_ = split_tuple_values(fn)
+            counts["tuple_values"] += tv_
     facts["_desugared"] = counts
     return counts
